@@ -78,7 +78,117 @@ def find_function(qualname):
         node = nxt
         body = node.body
     seg = ast.get_source_segment(src, node) or ''
-    return node, seg, hashlib.sha256(seg.encode()).hexdigest()
+    sha = hashlib.sha256(seg.encode()).hexdigest()
+    if REPO != GHOST_DIR and not mod.startswith('ghost_'):
+        alpha_normalise(qualname, node, sha)
+    return node, seg, sha
+
+
+def alpha_info(node):
+    """(names of the locals of a function in order of first appearance, sha256 of the body with every local replaced by
+    its position) - two functions with the same hash differ only in the NAMES of their locals.  None when the function
+    has nested scopes that shadow a local, or global / nonlocal declarations."""
+    if not isinstance(node, ast.FunctionDef):
+        return None
+    params = set(a.arg for a in node.args.posonlyargs + node.args.args + node.args.kwonlyargs)
+    for a in (node.args.vararg, node.args.kwarg):
+        if a is not None:
+            params.add(a.arg)
+    bound, inner_params = [], set()
+    for sub in ast.walk(node):
+        if isinstance(sub, (ast.Global, ast.Nonlocal, ast.ClassDef)):
+            return None
+        if sub is not node and isinstance(sub, (ast.FunctionDef, ast.Lambda)):
+            aa = sub.args
+            inner_params |= set(a.arg for a in aa.posonlyargs + aa.args + aa.kwonlyargs)
+            for a in (aa.vararg, aa.kwarg):
+                if a is not None:
+                    inner_params.add(a.arg)
+            if isinstance(sub, ast.FunctionDef):
+                return None
+        if isinstance(sub, (ast.ListComp, ast.SetComp, ast.DictComp, ast.GeneratorExp)):
+            for g in sub.generators:
+                inner_params |= set(n.id for n in ast.walk(g.target) if isinstance(n, ast.Name))
+    order = []
+
+    class Vis(ast.NodeVisitor):         # source order
+        def visit_Name(self, n):
+            if isinstance(n.ctx, (ast.Store, ast.Del)) and n.id not in params and n.id not in order:
+                order.append(n.id)
+
+        def visit_ExceptHandler(self, n):
+            if n.name and n.name not in params and n.name not in order:
+                order.append(n.name)
+            self.generic_visit(n)
+
+        def _inner(self, n):        # names bound inside comprehensions / lambdas live in their own scope
+            pass
+        visit_ListComp = visit_SetComp = visit_DictComp = visit_GeneratorExp = visit_Lambda = _inner
+    for st_ in node.body:
+        Vis().visit(st_)
+    if set(order) & inner_params:
+        return None
+    idx = {nm: i for i, nm in enumerate(order)}
+    import copy
+    clone = copy.deepcopy(node)
+    for sub in ast.walk(clone):
+        if isinstance(sub, ast.Name) and sub.id in idx:
+            sub.id = '_L%d' % idx[sub.id]
+        if isinstance(sub, ast.ExceptHandler) and sub.name in idx:
+            sub.name = '_L%d' % idx[sub.name]
+    body = strip_docstring(clone.body)
+    text = '\n'.join(ast.dump(b) for b in body)
+    return order, hashlib.sha256(text.encode()).hexdigest()
+
+
+_ALPHA_BASE = None
+
+
+def alpha_base():
+    """function -> (sha256, locals, alpha hash) as recorded in /verif/baseline/*.json at the last rebaseline"""
+    global _ALPHA_BASE
+    if _ALPHA_BASE is None:
+        import json
+        _ALPHA_BASE = {}
+        bdir = os.path.join(os.path.dirname(GHOST_DIR), 'baseline')
+        for f in sorted(os.listdir(bdir)) if os.path.isdir(bdir) else []:
+            try:
+                d = json.load(open(os.path.join(bdir, f)))
+            except Exception:
+                continue
+            for fn, rec in d.items():
+                if isinstance(rec, dict) and rec.get('alpha'):
+                    _ALPHA_BASE[fn.split('#')[-1]] = (rec.get('sha256'), rec.get('locals'), rec.get('alpha'))
+    return _ALPHA_BASE
+
+
+ALPHA_RENAMED = {}
+
+
+def alpha_normalise(qualname, node, sha):
+    """If the function differs from its baseline version ONLY in the names of its locals, rename them back (in the parsed
+    tree, in place, once): contracts name locals in loop invariants.  Mechanical and semantics-preserving; recorded in
+    ALPHA_RENAMED and reported in the evidence."""
+    base = alpha_base().get(qualname)
+    if base is None or base[0] == sha or getattr(node, '_alpha_done', False):
+        return
+    node._alpha_done = True
+    info = alpha_info(node)
+    if info is None or info[1] != base[2] or info[0] == base[1] or len(info[0]) != len(base[1] or []):
+        return
+    ren = dict(zip(info[0], base[1]))
+    # two-step renaming (names may be swapped)
+    for sub in ast.walk(node):
+        if isinstance(sub, ast.Name) and sub.id in ren:
+            sub.id = '\0' + ren[sub.id]
+        if isinstance(sub, ast.ExceptHandler) and sub.name in ren:
+            sub.name = '\0' + ren[sub.name]
+    for sub in ast.walk(node):
+        if isinstance(sub, ast.Name) and sub.id.startswith('\0'):
+            sub.id = sub.id[1:]
+        if isinstance(sub, ast.ExceptHandler) and sub.name and sub.name.startswith('\0'):
+            sub.name = sub.name[1:]
+    ALPHA_RENAMED[qualname] = {k: v for k, v in ren.items() if k != v}
 
 
 def strip_docstring(body):
